@@ -235,7 +235,23 @@ def gen_scenario(rng, lay: dict, kind: str):
             'partial': partial, 'raise_every': raise_every}
 
 
+def misdecoded_valid(sc: dict):
+    """A frame produced by the real serializer from an in-domain message must decode (it is the frame the property
+    calls valid) and decode to that message: re-serialising what was decoded gives the frame back."""
+    for label, p in zip(sc['labels'], sc['plains']):
+        if label in ('valid', 'large-valid'):
+            d = isolated_decode(sc['kind'], p)
+            try:
+                if d is None or d.serialize() != p:
+                    return p
+            except Exception:
+                return p
+    return None
+
+
 def violates(sc: dict, obs: dict) -> bool:
+    if misdecoded_valid(sc) is not None:
+        return True
     expected = [e for e in (isolated_decode(sc['kind'], p) for p in sc['plains']) if e is not None]
     got = obs['objs']
     if len(got) != len(expected) or any(type(a) is not type(b) or a != b for a, b in zip(got, expected)):
@@ -369,6 +385,13 @@ def monitor(run: Run, sc: dict, obs: dict, lay: dict):
             expected = [e for e in (isolated_decode(sc['kind'], p) for p in sc['plains']) if e is not None]
     wit = scenario_witness(sc)
     got = obs['objs']
+    bad_valid = misdecoded_valid(sc)
+    if bad_valid is not None:
+        d = isolated_decode(sc['kind'], bad_valid)
+        run.add_finding(Finding(f'valid-frame-not-decoded-to-its-message:{sc["kind"]}',
+                                f'{sc["kind"]} connection: a frame written by the real serializer ' +
+                                ('is rejected by the reader' if d is None else f'is delivered as a different {type(d).__qualname__} (re-serialising it gives other bytes)'),
+                                wit, observed=None if d is None else d.serialize().hex()[:400], expected=bad_valid.hex()[:400]))
     if len(got) != len(expected) or any(type(a) is not type(b) or a != b for a, b in zip(got, expected)):
         run.add_finding(Finding(f'frames-not-delivered-once-in-order:{sc["kind"]}',
                                 f'{sc["kind"]} connection: delivered {len(got)} messages, the stream holds {len(expected)} decodable frames '
@@ -413,7 +436,7 @@ def coq_cases(scs: list, cur: dict) -> list:
     def flush():
         nonlocal rows, zd, size
         if rows:
-            shards.append(L.CASES_PRELUDE + 'From Slsk Require Import C02.Model.\n' +
+            shards.append(L.CASES_PRELUDE + 'From Slsk Require Import C02.Model.\nFrom SlskGen Require Import ConnGen.\n' +
                           f'Definition zd := zd_of {L.coq_table(zd, none_ok=True)}.\n'
                           'Definition D (fd : family * direction) (bs : bytes) : option (string * list value) :=\n'
                           ' match dispatch zd (table all_schemas (fst fd) (snd fd)) (gen_fam_width (fst fd)) bs with\n'
@@ -432,8 +455,7 @@ def coq_cases(scs: list, cur: dict) -> list:
     for idx, (sc, obs) in enumerate(scs):
         if sc.get('large'):
             continue     # > 64 KiB literals are too heavy for coqc; these runs are judged by the monitor (property text)
-        fam, d = KINDS[sc['kind']]
-        fd = f'({L.FAMILY_COQ[fam]}, {"DRequest" if d == "request" else "DResponse"})'
+        fd = '(reader_table ' + {'server': 'KServer', 'init': 'KAwaitingInit', 'peer': 'KPeer', 'distributed': 'KDistributed'}[sc['kind']] + ')'
         evs = [f'Chunk {L.coq_bytes(c)}' for c in sc['chunks']]
         if sc['ending'] == 'partial-eof':
             evs.append(f'Chunk {L.coq_bytes(sc["partial"])}')
@@ -684,7 +706,7 @@ def run(run: Run):
     run.trusted += ['asyncio.StreamReader.readexactly semantics (the real one is used in the correspondence runs)',
                     'zlib (oracle)', 'the hypothesis "no handler raises CancelledError" is established by testing, not proof']
     run.assumptions += ['frame length prefix < 2^32 and the frame fits in memory (no model of memory exhaustion)', 'read timeouts not modelled']
-    proved = run.prove(['tr_obf', 'tr_messages'], extra_targets=['theories/C01/Eval.vo'])
+    proved = run.prove(['tr_obf', 'tr_messages', 'tr_c02conn'], extra_targets=['theories/C01/Eval.vo'])
     model_ok = (common.COQ / 'theories' / 'C02' / 'Props.vo').exists() and (common.COQ / 'theories' / 'C01' / 'Eval.vo').exists() and \
         not any(b[0].startswith('translator:') for b in run.broken)
     pin = L.load_pinned()
